@@ -287,15 +287,112 @@ def materialise(files, root, extra_dirs=()):
     for p, ls in files:
         f = root.joinpath(*p)
         f.parent.mkdir(parents=True, exist_ok=True)
-        text, _ = render_file(ls, style=len(ls))
-        f.write_text(text)
+        f.write_text(render_text(ls))
     for d in extra_dirs:
         root.joinpath(*d).mkdir(parents=True, exist_ok=True)
 
 
+# ---------------------------------------------------------------- two-level rendering of path-valued macros
+# The model says "m is defined to the path (angle, name)" (mval VP).  A faithful C rendering is `#define m "name"`
+# or the pair `#define m__P "name"` / `#define m m__P`.  In a case that uses the indirect rendering every
+# path-valued definition of m is the pair of nodes  ["Def", m__P, v], ["Def", m, v, m__P]  (4th element = the
+# alias the implementation sees; the model sees two VP definitions), every #undef m the pair
+# ["Undef", m__P], ["Undef", m], and -D lists carry both.  m__P is defined / undefined only together with m,
+# so Platform.define's keep-the-first rule gives the same result in both readings.
+ALIAS_SUFFIX = "__P"
+
+
+def strip_alias_lines(ls):
+    return [l[:3] if l[0] == "Def" and len(l) > 3 else l for l in ls]
+
+
+def strip_alias_defs(defs):
+    return [d[:2] for d in defs]
+
+
+def render_text(ls):
+    text, nl = render_file(strip_alias_lines(ls), style=len(ls))
+    if not any(l[0] == "Def" and len(l) > 3 for l in ls):
+        return text
+    out = text.split("\n")
+    for i, l in enumerate(ls):
+        if l[0] == "Def" and len(l) > 3:
+            assert len(nl[i]) == 1
+            out[nl[i][0] - 1] = f"#define {l[1]} {l[3]}"
+    return "\n".join(out)
+
+
+def make_indirect(files, cfg):
+    """Rewrite a case so that every path-valued macro of PMACS is defined through an alias."""
+    def lines(ls):
+        out = []
+        for l in ls:
+            if l[0] == "Def" and l[1] in PMACS and isinstance(l[2], list):
+                out += [["Def", l[1] + ALIAS_SUFFIX, l[2]], ["Def", l[1], l[2], l[1] + ALIAS_SUFFIX]]
+            elif l[0] == "Undef" and l[1] in PMACS:
+                out += [["Undef", l[1] + ALIAS_SUFFIX], ["Undef", l[1]]]
+            else:
+                out.append(l)
+        return out
+
+    def defs(ds):
+        out = []
+        for d in ds:
+            if d[0] in PMACS and isinstance(d[1], list):
+                out += [[d[0], d[1], d[0] + ALIAS_SUFFIX], [d[0] + ALIAS_SUFFIX, d[1]]]
+            else:
+                out.append(d)
+        return out
+    files2 = [[p, lines(ls)] for p, ls in files]
+    cfg2 = [[pn, [[e[0], e[1], defs(e[2]), e[3]] + e[4:] for e in es]] for pn, es in cfg]
+    return files2, cfg2
+
+
+def alias_invariant(files, cfg):
+    """The pairing that makes the two readings equivalent (a shrinker must not break it)."""
+    for _, ls in files:
+        for i, l in enumerate(ls):
+            if l[0] == "Def" and len(l) > 3:
+                if i == 0 or ls[i - 1] != ["Def", l[3], l[2]]:
+                    return False
+            if l[0] == "Def" and l[1].endswith(ALIAS_SUFFIX):
+                if i + 1 >= len(ls) or ls[i + 1] != ["Def", l[1][:-len(ALIAS_SUFFIX)], l[2], l[1]]:
+                    return False
+            if l[0] == "Undef" and l[1].endswith(ALIAS_SUFFIX):
+                if i + 1 >= len(ls) or ls[i + 1] != ["Undef", l[1][:-len(ALIAS_SUFFIX)]]:
+                    return False
+        names = {l[1] for l in ls if l[0] in ("Def", "Undef")}
+        if any(n + ALIAS_SUFFIX in names for n in PMACS):
+            for i, l in enumerate(ls):
+                if l[0] == "Undef" and l[1] in PMACS and (i == 0 or ls[i - 1] != ["Undef", l[1] + ALIAS_SUFFIX]):
+                    return False
+                if l[0] == "Def" and l[1] in PMACS and isinstance(l[2], list) and len(l) == 3:
+                    return False
+    for _, es in cfg:
+        for e in es:
+            al = {d[0]: d for d in e[2]}
+            for d in e[2]:
+                if len(d) > 2 and (d[2] not in al or al[d[2]][1] != d[1]):
+                    return False
+                if d[0].endswith(ALIAS_SUFFIX):
+                    base = d[0][:-len(ALIAS_SUFFIX)]
+                    if base not in al or len(al[base]) < 3 or al[base][1] != d[1]:
+                        return False
+    return True
+
+
+def uses_indirect(files, cfg):
+    return any(l[0] == "Def" and len(l) > 3 for _, ls in files for l in ls) or \
+        any(len(d) > 2 for _, es in cfg for e in es for d in e[2])
+
+
 def define_strings(defs):
     out = []
-    for m, v in defs:
+    for d in defs:
+        m, v = d[0], d[1]
+        if len(d) > 2:
+            out.append(f"{m}={d[2]}")
+            continue
         if v == "E":
             out.append(f"{m}=")
         elif isinstance(v, list):
